@@ -307,25 +307,40 @@ fn replay(input: &str, output: &str, scratch: &str) -> i32 {
                     }
                     // everything that depends on the prediction: once against the reference, and - if that fails and
                     // deviation switches apply - against the deviated prediction
-                    let check = |deviated: bool| -> Vec<Value> {
+                    let same_set = |a: &Value, b: &Value| -> bool {
+                        let norm = |x: &Value| { let mut v: Vec<String> = x.as_array().map(|a| a.iter().map(|s| s.as_str().unwrap_or("").to_string()).collect()).unwrap_or_default(); v.sort(); v };
+                        norm(a) == norm(b)
+                    };
+                    let check = |variant: Option<&Value>| -> Vec<Value> {
                         let mut out: Vec<Value> = vec![];
-                        let key = |k: &str| if deviated { format!("d{k}") } else { k.to_string() };
-                        let lo = v[key("lo").as_str()].as_u64().unwrap() as usize;
-                        let hi = v[key("hi").as_str()].as_u64().unwrap() as usize;
+                        let top = variant.unwrap_or(&v);
+                        let lo = top["lo"].as_u64().unwrap() as usize;
+                        let hi = top["hi"].as_u64().unwrap() as usize;
                         if n <= inputs.len() && (n < lo || n > hi) {
                             let c = if n < lo { "count below the number of tuples that must be counted" } else { "count above the number of tuples that may be counted" };
                             out.push(json!({"what":"count","count":n,"lo":lo,"hi":hi,"clauses":[c],
                                 "inputs":inputs.iter().map(show).collect::<Vec<_>>(),"outputs":data.iter().map(show).collect::<Vec<_>>()}));
                         }
                         for (k, m) in members.iter().enumerate() {
-                            let outs = if ty == "set" { m[key("outs").as_str()].clone() } else { json!([{"el":m[key("el").as_str()],"sn":m[key("sn").as_str()]}]) };
+                            let outs = match (ty, variant) {
+                                ("set", None) => m["outs"].clone(),
+                                ("set", Some(var)) => {
+                                    let on = var["on"].as_array().map(|a| a.iter().any(|d| d == &m["dev"])).unwrap_or(false);
+                                    if on { m["douts"].clone() } else { m["outs"].clone() }
+                                }
+                                (_, None) => json!([{"el":m["el"],"sn":m["sn"]}]),
+                                (_, Some(var)) => {
+                                    let e = m["dv"].as_array().and_then(|a| a.iter().find(|x| same_set(&x["on"], &var["on"]))).cloned().unwrap_or(json!({"el":m["el"],"sn":m["sn"]}));
+                                    json!([{"el":e["el"],"sn":e["sn"]}])
+                                }
+                            };
                             if let Some(clauses) = judge(&outs, None, &inputs[k], &data[k]) {
                                 out.push(json!({"what":"outcome","member":k + 1,"cls":m["cls"],"mask":m["mask"],"pt":m["pt"],"input":show(&inputs[k]),"output":show(&data[k]),
                                     "observed":abstract_of(&inputs[k], &data[k]),"admissible":outs,"clauses":clauses,"count":n}));
                             }
                         }
                         if ty == "pipe" {
-                            let steps = v[key("steps").as_str()].as_array().unwrap();
+                            let steps = top["steps"].as_array().unwrap();
                             for (e, &si) in events.iter().zip(order.iter()) {
                                 let s = &steps[si];
                                 let skipped = field(e, "skipped") == "true";
@@ -344,12 +359,15 @@ fn replay(input: &str, output: &str, scratch: &str) -> i32 {
                         }
                         out
                     };
-                    let reference = check(false);
+                    let reference = check(None);
                     if !reference.is_empty() {
-                        let devs = v["devs"].as_array().cloned().unwrap_or_default();
-                        let explained = !devs.is_empty() && check(true).is_empty();
+                        // contradicts the reference: is it exactly what some combination of the applicable deviation switches predicts?
+                        // (smallest combination first)
+                        let mut variants: Vec<&Value> = v["variants"].as_array().map(|a| a.iter().collect()).unwrap_or_default();
+                        variants.sort_by_key(|x| x["on"].as_array().map(|a| a.len()).unwrap_or(0));
+                        let explained = variants.into_iter().find(|var| check(Some(var)).is_empty()).map(|var| var["on"].clone());
                         for mut x in reference {
-                            x["deviation"] = if explained { Value::Array(devs.clone()) } else { Value::Null };
+                            x["deviation"] = explained.clone().unwrap_or(Value::Null);
                             fail(x, &mut t);
                         }
                     }
